@@ -88,6 +88,22 @@ CHECKS = {
             'Trusted: Lean kernel + standard axioms; process spawning, fd inheritance and shlex.quote are exercised, '
             'not modelled; the worker\'s exception-to-FAILED mapping is part of the scheduler model (C02).',
             '5 (C19)'),
+    'C20': ('Lean 4 proof: tree induction (mutual structural recursion over sections/items) on the report writer: '
+            'pages = sections in pre-order at the path of their chain of titles, anchors over all pages are a '
+            'permutation of the results of the tree, toc entries resolve to written pages, figures cover the '
+            'references, all written paths distinct and never also a directory; rejection = no Written value + '
+            'differential correspondence with Rst.format_report(...).write(tmpdir) + independent tree oracle',
+            'For every report tree with distinct sibling titles: write_ok_iff (when and what write returns), '
+            'pages_bijective, result_exactly_once, toc_targets_written, figures_written, no_overwrite, '
+            'bad_title_writes_nothing (an invalid title / too deep a tree / a path collision gives an error value, so '
+            'nothing is written); c20_pinned_refuted keeps the pinned writer refuted (index collision, late '
+            'validation). Tied to rst.py by writing generated trees (reserved, invalid, repeated, nested titles; depth '
+            'to 6) to a temp dir and comparing the file list and, per page, anchors, image targets and toctree '
+            'entries with the compiled model.',
+            'Trusted: Lean kernel + standard axioms; the model is tree-level: trees with equally titled siblings '
+            '(pages merged by the code through its title-chain dictionaries) are checked by the oracle only; '
+            'matplotlib stubbed; toctree resolution as Sphinx (relative to the listing page).',
+            '5 (C20)'),
 }
 
 NOT_YET = 'check not built yet in this round (planned in DESIGN.md section 5); no claim is made'
